@@ -511,6 +511,56 @@ func H_Template() {
 	}
 }
 
+var templateSeeds = []string{
+	`%{ if a == "A" }x%{ else }y%{ endif }`,
+	`%{ for v in [a] }${v},%{ endfor }`,
+	`%%{ ${a} $${a} %{ if true }t%{ endif }`,
+	`x %{~ if true ~} y %{~ endif ~} z`,
+	`${a}%{ if false }n%{ endif }$$%%`,
+}
+
+// H_TemplateSeed: as H_Template for longer contents - a seed template with
+// directives, escapes and interpolations (quotes escaped for JSON) in which a
+// window of w bytes at a symbolic offset is replaced by symbolic ASCII bytes.
+func H_TemplateSeed() {
+	w := vf.Param("w", 1)
+	seed := []byte(templateSeeds[vf.Concretize(vf.Choice(len(templateSeeds)))])
+	off := vf.Concretize(vf.Choice(len(seed) - w + 1))
+	win := vf.Bytes(w)
+	content := append([]byte{}, seed...)
+	for i, b := range win {
+		vf.Assume(b-0x20 < 0x5f && b != '"' && b != '\\')
+		content[off+i] = b
+	}
+	// JSON-escape the quotes of the content
+	src := []byte{'"'}
+	for _, b := range content {
+		if b == '"' {
+			src = append(src, '\\')
+		}
+		src = append(src, b)
+	}
+	src = append(src, '"')
+	expr, diags := hcljson.ParseExpression(src, "x.json")
+	vf.Assert(!diags.HasErrors(), "string-accepted")
+	lit, ldiags := expr.Value(nil)
+	vf.Assert(!ldiags.HasErrors() && lit.Type() == cty.String && lit.AsString() == string(content), "literal-mode-verbatim")
+	ctx := &hcl.EvalContext{Variables: map[string]cty.Value{"a": cty.StringVal("A")}}
+	got, gdiags := expr.Value(ctx)
+	texpr, tdiags := hclsyntax.ParseTemplate(content, "x.json", hcl.InitialPos)
+	if tdiags.HasErrors() {
+		vf.Assert(gdiags.HasErrors(), "template-syntax-error-propagates")
+		vf.Reach("template-error")
+		return
+	}
+	want, wdiags := texpr.Value(ctx)
+	vf.Assert(gdiags.HasErrors() == wdiags.HasErrors(), "template-eval-errors-agree")
+	if !wdiags.HasErrors() && !gdiags.HasErrors() {
+		vf.Assert(got.RawEquals(want), "template-value-agrees")
+		vf.Reach("template-ok")
+	}
+}
+
 var windowContexts = [][2]string{
 	{`["`, `"]`},
 	{`{"a":"`, `"}`},
